@@ -661,10 +661,17 @@ func (c *Ctx) len1(v ssa.Value) lin.Form {
 		}
 		f := c.lenTermOf(v)
 		c.callLenFacts(x, f)
+		c.resultLenFacts(x, 0, f)
 		return f
 	case *ssa.BinOp:
 		if x.Op == token.ADD { // string concatenation
 			return c.LenOf(x.X).Add(c.LenOf(x.Y))
+		}
+	case *ssa.Extract:
+		if call, ok := x.Tuple.(*ssa.Call); ok {
+			f := c.lenTermOf(v)
+			c.resultLenFacts(call, x.Index, f)
+			return f
 		}
 	}
 	return c.lenTermOf(v)
